@@ -21,7 +21,7 @@ Require Import Verif.Model.Base Verif.Model.Dec Verif.Model.Level Verif.Model.Mo
 Require Import Verif.Model.Quote Verif.Model.Attrs Verif.Model.Encode Verif.Model.Ansi.
 Require Import Verif.Proofs.EscP Verif.Proofs.SortP Verif.Proofs.AnsiP.
 Require Import Verif.Corr.C01 Verif.Corr.Enc.
-Require Verif.Gen.Colors Verif.Proofs.GenColorP.
+Require Verif.Gen.Colors Verif.Proofs.GenColorP Verif.Gen.Layout Verif.Gen.Tables Verif.Model.LayoutRef Verif.Proofs.GenLayoutP.
 
 (* strconv.IsPrint on ASCII; the theorems hold for every such function *)
 Definition isprint_std (isprint : Z -> bool) : Prop :=
@@ -185,6 +185,25 @@ Print Assumptions C06_gen_right_pad.
 Theorem C06_gen_split_first_rest : forall str, Colors.split_first_rest str = Some (split_first_rest str).
 Proof. exact GenColorP.gen_split_first_rest. Qed.
 Print Assumptions C06_gen_split_first_rest.
+
+(* THE SKELETON OF THE RECORD.  Entry.printImpl after the blank-line rule, translated from the source on
+   every run (Gen/Layout.v), for EVERY choice of the part printers (parameters over the context), colour
+   table, flag word and context: Begin; in the two plain formats timestamp, logger name, severity,
+   message - in colour mode first the colours registered for the record's level (the first is the
+   foreground, a second one the background: with one colour the background, with none both colours are
+   what the context held - setentry resets them, C09), then timestamp, name, severity, FIRST LINE; then the
+   attributes, the caller part iff Lcaller is set, the rest lines, the error dump, End(true), and one
+   printOut of the context's bytes at its level. *)
+Theorem C06_gen_print_impl : forall (R E D : Type)
+  (f_begin f_timestamp f_name f_severity f_msg f_first f_pc f_rest : LayoutRef.pcs R -> LayoutRef.pcs R)
+  (f_attrs : LayoutRef.pcs R -> E * LayoutRef.pcs R) (f_errdump : LayoutRef.pcs R -> E -> LayoutRef.pcs R)
+  (f_end : LayoutRef.pcs R -> bool -> LayoutRef.pcs R) (f_bytes : LayoutRef.pcs R -> bytes) (d_printout : Z -> bytes -> D)
+  m flags pc tr,
+  @Layout.print_impl R E D f_begin f_timestamp f_name f_severity f_msg f_first f_pc f_rest f_attrs f_errdump f_end f_bytes d_printout m flags pc tr
+  = LayoutRef.print_impl_ref f_begin f_timestamp f_name f_severity f_msg f_first f_pc f_rest f_attrs f_errdump f_end f_bytes d_printout
+      m flags Tables.c_Lcaller pc tr.
+Proof. intros. exact (GenLayoutP.gen_print_impl _ _ _ _ _ _ _ _ _ _ _ _ _ m flags pc tr). Qed.
+Print Assumptions C06_gen_print_impl.
 
 Definition ex_isprint (r : Z) : bool := (32 <=? r) && (r <? 127).
 Definition ex_cfg : ecfg :=
